@@ -39,7 +39,12 @@ def max_update(ctx, s, fn):
     an = ctx.E.an(fn)
     P = ctx.E.prover(fn)
     stores = [(k, L, an.stmt_val[k]) for k, L in an.stmt_loc.items() if L[0] == "index"]
-    ctx.floor("C20.register-stores in %s" % fn.nice.split("::")[-1], len(stores), 1)
+    ctx.instances["C20.register-stores in %s" % fn.nice.split("::")[-1]] = len(stores)
+    if not stores:
+        s.add("S-MAXUPD", fn, "register-max", "r[i]=v if v>r[i]", fn.sp, VIOLATION,
+              "no per-register store of the form r[i] = v under v > r[i] was found: merge/add is not a register-wise max "
+              "(e.g. a word-at-a-time rewrite whose lane arithmetic is not a max for all byte values)")
+        return
     for (b, i), L, v in stores:
         base, idx = L[1], L[2]
         ok = False
